@@ -387,6 +387,15 @@ def _spec_failures(c, o):
                 mp = last["pubns"] if last["haspub"] else []
                 if list(mp) != list(d.get("recpubns") or []):
                     found.add("pub")
+                # name, kind (plain / proxy / virtual configuration), uniqueness of the live entity, GET /datasets/{name}:
+                # never explained by a known finding
+                if last.get("name") != d["name"] or last.get("kind") != d.get("reckind"):
+                    found.add("counter")
+                mine = [l for l in live if l[0] == d["name"] or l[1] == d["name"]]
+                if mine != [[d["name"], d["name"]]] and mine != [(d["name"], d["name"])]:
+                    found.add("counter")
+                if not d.get("detfound") or (d["name"] != CORE and d.get("detitems") != d["distinct"]):
+                    found.add("counter")
             else:
                 if any(l[0] == d["name"] or l[1] == d["name"] for l in live):
                     found.add("F19b")
